@@ -269,7 +269,7 @@ def run(prog, ctx):
                         for lp2 in h.walk():
                             if lp2.k in ("ForStmt", "WhileStmt"):
                                 sh2 = loops.index_shape(lp2)
-                                if sh2.ok and sh2.var == mm2.group(1) and sh2.cmp == "<" and sh2.bound == C:
+                                if sh2.ok and sh2.var == mm2.group(1) and sh2.cmp == "<" and (sh2.bound == C or (len(cdefs) == 1 and sh2.bound == cdefs[0])):
                                     lv.append(lp2)
                         if lv:
                             continue
